@@ -189,6 +189,8 @@ structure Node where
   nested  : List Key
   /-- `_parent` -/
   parent  : Option Key
+  /-- `_base_output_path`: the base output path the factory hands to every namespace it creates -/
+  base    : Path
 
 /-- `_NamespaceFactory._namespaces` (insertion-ordered dict keyed by the unstropped full name). -/
 abbrev Store := List Node
@@ -206,7 +208,11 @@ def parentOf (st : Store) (k : Key) : Option Key :=
 def pathOf (cfg : Cfg) (st : Store) (k : Key) : PathR :=
   match findNode st k with | some n => n.outPath | none => nsOutputPath cfg k
 
-def mkNode (cfg : Cfg) (k : Key) : Node := ⟨k, nsOutputPath cfg k, [], [], none⟩
+/-- `Namespace.get_support_output_folder()` of the namespace `k`: the stored `_base_output_path`. -/
+def baseOf (cfg : Cfg) (st : Store) (k : Key) : Path :=
+  match findNode st k with | some n => n.base | none => basePath cfg
+
+def mkNode (cfg : Cfg) (k : Key) : Node := ⟨k, nsOutputPath cfg k, [], [], none, basePath cfg⟩
 
 /-- `get_or_make_namespace`: the store and `did_exist`. -/
 def getOrMake (cfg : Cfg) (st : Store) (k : Key) : Store × Bool :=
@@ -373,6 +379,17 @@ def typeToIncludePath (cfg : Cfg) (tr : Tree) (t : Ty) : PathR :=
   | .hit (.error e) => .error e
   | .keyError => .error .keyError
   | .fuel => .error .fuel
+
+/-! ### Support files (`SupportGenerator`) -/
+
+/-- `SupportGenerator._sub_folders`: `Path("") / Path(p₁) / … / Path(pₙ)` for the parts of `support_namespace`. -/
+def subFolders (subs : List Str) : Path := subs.foldl (fun p s => pathJoin p (pjoin [] s)) []
+
+/-- The file a support resource is generated/copied to:
+`(Path(namespace.get_support_output_folder()) / sub_folders / resource.name).with_suffix(extension)`,
+`namespace` being the tree's root. -/
+def supportTarget (cfg : Cfg) (tr : Tree) (subs : List Str) (name : Str) : PathR :=
+  withSuffix (pjoin (pathJoin (baseOf cfg tr.store tr.root) (subFolders subs)) name) cfg.ext
 
 /-! ### The statement's vocabulary -/
 
